@@ -51,13 +51,29 @@ func (mds JoinDatasource) Execute(ctx context.Context, from time.Time, to time.T
 		sourceStreams = append(sourceStreams, ds.Stream())
 		currFieldsMeta := ds.FieldsMeta()
 		idxToNumberOfExpectedFields[idx] = len(currFieldsMeta)
-		joinedFieldMeta = append(joinedFieldMeta, currFieldsMeta...)
-		// Check for duplicate field urns
+		// The sides of the join that may be absent from a joined row are padded with nils, so their fields can't be required
+		nullableSide := (mds.joinType == FullJoin && len(downStreamResults) > 1) || (mds.joinType == LeftJoin && idx > 0)
 		for fIdx := range currFieldsMeta {
-			if b := fieldUrnsSet[currFieldsMeta[fIdx].Urn()]; b {
-				return util.DefaultValue[Result](), fmt.Errorf("duplicate field urn %s found while joining datasources", currFieldsMeta[fIdx].Urn())
+			currFieldMeta := currFieldsMeta[fIdx]
+			// Check for duplicate field urns
+			if b := fieldUrnsSet[currFieldMeta.Urn()]; b {
+				return util.DefaultValue[Result](), fmt.Errorf("duplicate field urn %s found while joining datasources", currFieldMeta.Urn())
 			}
-			fieldUrnsSet[currFieldsMeta[fIdx].Urn()] = true
+			fieldUrnsSet[currFieldMeta.Urn()] = true
+			if nullableSide && currFieldMeta.Required() {
+				optionalFieldMeta, err := tsquery.NewFieldMetaWithCustomData(
+					currFieldMeta.Urn(),
+					currFieldMeta.DataType(),
+					false,
+					currFieldMeta.Unit(),
+					currFieldMeta.CustomMeta(),
+				)
+				if err != nil {
+					return util.DefaultValue[Result](), fmt.Errorf("failed creating field meta for joined field %s: %w", currFieldMeta.Urn(), err)
+				}
+				currFieldMeta = *optionalFieldMeta
+			}
+			joinedFieldMeta = append(joinedFieldMeta, currFieldMeta)
 		}
 	}
 	var joinedStreams stream.Stream[timeseries.TsRecord[[]any]]
